@@ -80,8 +80,12 @@ def check(ctx):
     m = fc.lookup("fit")
     ctx.touch(m.qualname)
 
+    def pair(nm):
+        # the limits are 2-sequences (Bounds.__post_init__ rejects every other length - clause C05-f): (M[0], M[1])
+        return TupV([Num(nf.fn("[]", nf.sym("self.bounds." + nm), nf.const(k))) for k in (0, 1)])
+
     def run_fit(x):
-        sv = Inst(fc, {"bounds": Inst(bc, {}, "self.bounds")}, "self")
+        sv = Inst(fc, {"bounds": Inst(bc, {"M": pair("M"), "tau": pair("tau")}, "self.bounds")}, "self")
         x.enter(m, x.symbolic_args(m), sv, None, fc)
         # evaluate the fitted model the way curve_fit does - f(x, *params) with one parameter per entry of the
         # first guess - inside the same trace partition, so that its branches agree with fit()'s own
@@ -121,7 +125,7 @@ def check(ctx):
                 okb = [it.to_nf(x) for x in lo.items] == [idx("M", 0), idx("tau", 0)] and [it.to_nf(x) for x in hi.items] == [idx("M", 1), idx("tau", 1)]
             ctx.check(okb, "C05-e", m.qualname + f":bounds [{tag}]", where, "curve_fit receives bounds ((M_min, tau_min), (M_max, tau_max)): lower tuple first, M before tau, as its signature requires", signature="fit_bounds order", bounds=str(b)[:200])
         else:
-            ctx.check(b is not None and it.to_nf(b) == nf.sym("self.bounds.M"), "C05-d", m.qualname + f":bounds [{tag}]", where, "with a supplied tau, curve_fit is bounded by the M limits", signature="bounds missing", bounds=str(b)[:120])
+            ctx.check(b is not None and it.to_nf(b) in (nf.sym("self.bounds.M"), it.to_nf(pair("M"))), "C05-d", m.qualname + f":bounds [{tag}]", where, "with a supplied tau, curve_fit is bounded by the M limits", signature="bounds missing", bounds=str(b)[:120])
         from .common import check_tolerances
 
         check_tolerances(
